@@ -676,7 +676,7 @@ class time_limit:
 
 
 def _chunk(args):
-    cases = args
+    cases, budget = args
     part = Part()
     out = []
     for case in cases:
@@ -716,7 +716,7 @@ def check_cases(ctx: Ctx, cases: list) -> None:
     import onnx_ir.passes.common.topological_sort  # noqa: F401
 
     k = max(1, (len(cases) + 15) // 16)
-    chunks = [cases[i : i + k] for i in range(0, len(cases), k)]
+    chunks = [(cases[i : i + k], ctx.pick(60, 600)) for i in range(0, len(cases), k)]
     results = pmap(_chunk, chunks)
     recs = []
     for part, out in results:
